@@ -97,6 +97,12 @@ def stext(s):
         return 'ERROR ' + etext(s[1])
     if k == 'OEG':
         return 'ON ERROR GOTO %d' % s[1]
+    if k == 'RD':
+        return 'READ ' + ','.join(VARS[v] for v in s[1])
+    if k == 'DT':
+        return 'DATA ' + ','.join('%d' % z for z in s[1])
+    if k == 'RS':
+        return 'RESTORE' + ('' if s[1] is None else ' %d' % s[1])
     if k == 'RES':
         return 'RESUME' + ('' if s[1] == 'S' else ' NEXT' if s[1] == 'N' else ' %d' % s[1])
     raise ValueError(s)
@@ -145,6 +151,10 @@ def valid_layout(prog):
     nums = [n for n, _ in lines]
     if nums != sorted(set(nums)) or any(not (0 <= n <= 65529) for n in nums):
         return False
+    for n, sl in lines:
+        for a, b in zip(sl, sl[1:]):
+            if a[0] == 'DT' and b[0] == 'EL':
+                return False        # DATA swallows the text up to the next colon, ELSE included
     return all(sl and len('%d %s' % (n, join(sl))) < 250 for n, sl in lines)
 
 
@@ -223,6 +233,12 @@ def scoq(s):
         return 'SError %s' % ecoq(s[1])
     if k == 'OEG':
         return 'SOnErrorGoto %s' % zc(s[1])
+    if k == 'RD':
+        return 'SRead [%s]' % '; '.join(nat(v) for v in s[1])
+    if k == 'DT':
+        return 'SData %s' % zlist(s[1])
+    if k == 'RS':
+        return 'SRestore %s' % oz(s[1])
     if k == 'RES':
         return 'SResume %s' % ('RSame' if s[1] == 'S' else 'RNext' if s[1] == 'N' else '(RLine %s)' % zc(s[1]))
     raise ValueError(s)
@@ -406,9 +422,16 @@ def parse_output(raw, err_num):
             final = [1, err_num, lnum]
         else:
             t = ln.strip()
-            if not re.match(br'^-?\d+$', t):
+            if t == b'Division by zero':
+                trace.append(77711)          # the soft message (no line number, no 0xFF)
+            elif t == b'1.701412E+38':
+                trace.append(88888)          # machine infinity
+            elif t == b'-1.701412E+38':
+                trace.append(-88888)
+            elif not re.match(br'^-?\d+$', t):
                 return [2, 98]
-            trace.append(int(t))
+            else:
+                trace.append(int(t))
     return (final or [0]) + trace
 
 
@@ -455,12 +478,28 @@ class RefFlat(object):
         self.err = 0
         self.erl = 0
         self.hard_math = False
+        self.data = ('scan', 0, 0)     # DATA pointer: ('scan', li, si) or ('at', li, si, k)
         self.trace = []
         self.steps = 0
 
     # -- program text navigation
     def stmts(self, li):
+        if li == -2:
+            # a position in an EARLIER direct line (a byte offset into text that has been replaced): not modelled
+            raise Unmodelled()
         return self.direct if li < 0 else self.lines[li][1]
+
+    def new_direct_line(self, cmd):
+        """a new direct line replaces the old one: positions remembered in the old one become stale"""
+        def st(p):
+            return (-2,) + tuple(p[1:]) if p is not None and p[0] == -1 else p
+        self.calls = [st(p) for p in self.calls]
+        self.resume = st(self.resume)
+        self.whiles = [(st(a), st(b)) for a, b in self.whiles]
+        for rec in self.fors:
+            rec['body'] = st(rec['body'])
+            rec['at'] = st(rec['at'])
+        self.direct = list(cmd)
 
     def stmt(self, pos):
         li, si = pos
@@ -600,13 +639,47 @@ class RefFlat(object):
             e.where = wpos
             raise
 
+    # -- DATA
+    def next_item(self):
+        """(value, pointer after it) of the item the DATA pointer is at; None = no more data"""
+        p = self.data
+        if p[0] == 'at':
+            li, si, k = p[1:]
+            items = self.lines[li][1][si][1]
+        else:
+            found = None
+            for li in range(p[1], len(self.lines)):
+                sl = self.lines[li][1]
+                for si in range(p[2] if li == p[1] else 0, len(sl)):
+                    if sl[si][0] == 'DT' and (si == 0 or not then_joined(sl[si - 1])):
+                        found = (li, si)
+                        break
+                if found:
+                    break
+            if not found:
+                return None
+            li, si = found
+            k = 0
+            items = self.lines[li][1][si][1]
+        if k >= len(items):
+            return None
+        nxt = ('at', li, si, k + 1) if k + 1 < len(items) else ('scan', li, si + 1)
+        return items[k], nxt
+
     # -- one statement; returns the next position (None = fell off the end of the line)
     def execute(self, pos):
         s = self.stmt(pos)
         k = s[0]
         nxt = self.after(pos)
         if k == 'P':
-            self.trace.append(self.ev(s[1]))
+            e = s[1]
+            if isinstance(e, list) and e[0] == '\\' and not self.hard_math:
+                a, b = self.ev(e[1]), self.ev(e[2])
+                if i16(a) and i16(b) and b == 0:
+                    # no error trap: Division by zero is only a message, the result is machine infinity
+                    self.trace += [77711, -88888 if a < 0 else 88888]
+                    return nxt
+            self.trace.append(self.ev(e))
         elif k == '=':
             self.vars[s[1]] = self.ev_int(s[2])
         elif k == 'G':
@@ -646,6 +719,27 @@ class RefFlat(object):
                 if s[2]:
                     self.calls.append(pos)
                 return tgt
+        elif k == 'RD':
+            for v in s[1]:
+                item = self.next_item()
+                if item is None:
+                    raise BasicError(4)
+                z, nxt_ptr = item
+                if abs(z) > 16777216:
+                    raise Unmodelled()
+                if not i16(z):
+                    raise BasicError(6)
+                self.vars[v] = z
+                self.data = nxt_ptr
+        elif k == 'DT':
+            pass
+        elif k == 'RS':
+            if s[1] is None:
+                self.data = ('scan', 0, 0)
+            else:
+                if s[1] not in self.lineidx:
+                    raise BasicError(8)
+                self.data = ('scan', self.lineidx[s[1]], 0)
         elif k == 'END':
             raise Finish()
         elif k == 'ERR':
@@ -776,11 +870,9 @@ def ref_session(prog, cmds, max_steps=LONG):
     total = 0
     for cmd in cmds:
         if cmd is None:
-            hard = r.hard_math
-            r = RefFlat(prog, None)
-            r.hard_math = hard
+            r = RefFlat(prog, None)          # RUN: a fresh interpreter state
         else:
-            r.direct = list(cmd)
+            r.new_direct_line(cmd)
         kind, trace, err, line = r.run(max_steps)
         total += r.steps
         kinds.append(kind)
@@ -886,7 +978,13 @@ class RefStruct(object):
         if k == 'line':
             self.line = s[1]
         elif k == 'print':
-            self.trace.append(self.ev(s[1]))
+            e = s[1]
+            if isinstance(e, list) and e[0] == '\\':
+                a, b = self.ev(e[1]), self.ev(e[2])
+                if i16(a) and i16(b) and b == 0:
+                    self.trace += [77711, -88888 if a < 0 else 88888]
+                    return
+            self.trace.append(self.ev(e))
         elif k == 'let':
             self.vars[s[1]] = self.ev_int(s[2])
         elif k == 'for':
